@@ -121,9 +121,16 @@ class StubProc:
             self._exit()
 
 
+class HangDetected(BaseException):
+    """replay only: the collection loop keeps polling an empty queue with nobody left to fill it"""
+
+
 class StubQueue:
     def get(self, timeout=None):
         e = ENV[0]
+        e.gets += 1
+        if e.sched.script is not None and e.gets > 20000:
+            raise HangDetected()
         procs = [p for p in e.procs if p.q is self and p.started]
         pend = [p for p in procs if p.deliverable()]
         must = [p for p in pend if p.dead]
@@ -147,6 +154,7 @@ class Env:
         self.sched = sched
         self.faults = faults
         self.faulty = False
+        self.gets = 0
 
 
 def make_mp(faults):
@@ -248,7 +256,7 @@ def run_schedule(R, GA, W, B, nrec, T, faults, script=None):
         outcome = "exit:%s" % (e.code,)
     except IdleBudget:
         outcome = "idle"
-    except (rt.LoopBound, ScheduleExhausted):
+    except (rt.LoopBound, ScheduleExhausted, HangDetected):
         outcome = "loop"
     except Exception as e:
         outcome = "exc:%s: %s" % (type(e).__name__, str(e)[:120])
